@@ -157,6 +157,8 @@ def build(pendulum, case):
         if z is None:
             return "DateTime", pendulum.DateTime(*seeds.fields_of_wall(inst)), True
         return "DateTime", obs.utc_dt(pendulum, inst).in_timezone(_tz(pendulum, z)), True
+    if k == "dt-naive-fold1":
+        return "DateTime-naive-fold1", pendulum.naive(*seeds.fields_of_wall(case["inst"])), True
     if k == "dt-foreign":
         x = obs.utc_dt(pendulum, case["inst"]).in_timezone(_tz(pendulum, case["z"]))
         if case["tzkind"] == "timezone.utc":
@@ -307,6 +309,7 @@ def run_shard(shard):
         for inst in (0, 1, -1, 951782400123456, 1700000000000000, -2208988800000000):
             for z in ("UTC", None, 19800, -60, "Europe/Paris"):
                 cases.append({"k": "dt", "z": z, "inst": inst})
+            cases.append({"k": "dt-naive-fold1", "inst": inst})
             for tk in ("timezone.utc", "timezone+1", "zoneinfo"):
                 cases.append({"k": "dt-foreign", "z": "Europe/Paris", "inst": inst, "tzkind": tk})
         for f in ((1, 1, 1), (2024, 2, 29), (9999, 12, 31), (1970, 1, 1)):
